@@ -17,7 +17,9 @@ import (
 	"sort"
 	"strings"
 	"sync"
+	"sync/atomic"
 	"testing"
+	"text/template"
 
 	"github.com/ovn-org/libovsdb/model"
 	"github.com/ovn-org/libovsdb/modelgen"
@@ -68,6 +70,9 @@ type c20Case struct {
 // c20Profile is the schema space for the generator: the full type space plus naming stress.
 // Excluded by construction (known finding modelgen-enum-names): enums whose key type is not
 // string and enum strings that are not made of letters, digits, '-' and '_'.
+// c20FreshName numbers the column names that are used once per process.
+var c20FreshName int64
+
 func c20Schema(t *rapid.T) kit.Schema {
 	p := kit.ProfileCodec
 	p.FancyNames = rapid.IntRange(0, 2).Draw(t, "fancy") > 0
@@ -117,6 +122,26 @@ func c20Schema(t *rapid.T) kit.Schema {
 	if excluded > 0 {
 		kit.LabelN("C20", "excluded_domain:enum-identifier-collision", excluded)
 	}
+	// a third of the schemas use column names no other schema of this process has used: the
+	// generator sees thousands of distinct names in one process (anything it remembers
+	// between names or tables has to cope with that)
+	if rapid.IntRange(0, 2).Draw(t, "freshnames") == 0 {
+		for ti := range s.Tables {
+			rename := map[string]string{}
+			for ci := range s.Tables[ti].Cols {
+				c := &s.Tables[ti].Cols[ci]
+				n := fmt.Sprintf("%s_%d", c.Name, atomic.AddInt64(&c20FreshName, 1))
+				rename[c.Name] = n
+				c.Name = n
+			}
+			for ii := range s.Tables[ti].Indexes {
+				for ji := range s.Tables[ti].Indexes[ii] {
+					s.Tables[ti].Indexes[ii][ji] = rename[s.Tables[ti].Indexes[ii][ji]]
+				}
+			}
+		}
+		kit.Label("C20", "column-names-never-seen-before")
+	}
 	return s
 }
 
@@ -139,6 +164,15 @@ func TestC20(t *testing.T) {
 		}
 		fail := func(class, format string, args ...interface{}) {
 			kit.Fail(t, "C20", class, kase, format, args...)
+		}
+		// sometimes the generator has refused something before (a template whose output is not Go
+		// source): what it renders afterwards must not depend on that
+		if rapid.IntRange(0, 2).Draw(t, "afterrefused") == 0 {
+			bad := template.Must(template.New("bad").Parse("this is {{ \"not\" }} Go source {"))
+			if _, err := gen.Format(bad, map[string]interface{}{}); err == nil {
+				t.Fatalf("harness: the generator accepted text that is not Go source")
+			}
+			kit.Label("C20", "generator-used-after-a-refused-rendering")
 		}
 		const pkg = "genpkg"
 		var files []*ast.File
@@ -742,3 +776,125 @@ func tailLines(s string, n int) string {
 
 var _ = reflect.TypeOf
 var _ model.Model
+
+// TestC20ManyNames: one generator process, one schema of 24 tables with 16 columns each:
+// about 400 distinct column names, a few of them ("name", "external_ids", "_uuid") in every
+// table. Every table is rendered with extended generation, then every table once more: the
+// files must be byte-identical, must type-check together, and every struct must have
+// exactly one field per column under the expected tag.
+func TestC20ManyNames(t *testing.T) {
+	imp := sharedImporter()
+	s := kit.Schema{Name: "Big", Version: "1.0.0"}
+	for ti := 0; ti < 24; ti++ {
+		tb := kit.Table{Name: fmt.Sprintf("table_%d", ti), IsRoot: true}
+		tb.Cols = append(tb.Cols, kit.Col{Name: "name", Key: kit.Base{T: kit.TStr}, Min: 1, Max: 1},
+			kit.Col{Name: "external_ids", Key: kit.Base{T: kit.TStr}, Value: &kit.Base{T: kit.TStr}, Min: 0, Max: -1})
+		for ci := 0; ci < 14; ci++ {
+			c := kit.Col{Name: fmt.Sprintf("col_%d_%d", ti, ci), Key: kit.Base{T: []kit.AT{kit.TInt, kit.TStr, kit.TBool, kit.TReal}[ci%4]}, Min: 1, Max: 1}
+			switch ci % 3 {
+			case 1:
+				c.Min = 0
+			case 2:
+				c.Min, c.Max = 0, -1
+			}
+			if ci == 5 {
+				c.Key = kit.Base{T: kit.TStr, Enum: []kit.Atom{kit.Str(fmt.Sprintf("value_%d_a", ti)), kit.Str(fmt.Sprintf("value_%d_b", ti))}}
+				c.Min, c.Max = 1, 1
+			}
+			tb.Cols = append(tb.Cols, c)
+		}
+		s.Tables = append(s.Tables, tb)
+	}
+	var schema ovsdb.DatabaseSchema
+	if err := json.Unmarshal(s.JSON(), &schema); err != nil {
+		t.Fatalf("harness: schema: %v", err)
+	}
+	gen, err := modelgen.NewGenerator()
+	if err != nil {
+		t.Fatal(err)
+	}
+	kase := c20Case{Schema: s.JSON(), Extended: true, Enums: true}
+	fail := func(class, format string, args ...interface{}) {
+		kit.Fail(t, "C20", class, kase, format, args...)
+	}
+	const pkg = "bigpkg"
+	var names []string
+	for n := range schema.Tables {
+		names = append(names, n)
+	}
+	sort.Strings(names)
+	render := func() map[string][]byte {
+		out := map[string][]byte{}
+		for _, name := range names {
+			table := schema.Tables[name]
+			args := modelgen.GetTableTemplateData(pkg, name, &table)
+			args.WithExtendedGen(true)
+			src, err := gen.Format(modelgen.NewTableTemplate(), args)
+			if err != nil {
+				kase.Table = name
+				fail("generate.error", "table %s: the generator fails: %v", name, err)
+			}
+			out[modelgen.FileName(name)] = src
+		}
+		src, err := gen.Format(modelgen.NewDBTemplate(), modelgen.GetDBTemplateData(pkg, schema))
+		if err != nil {
+			fail("generate.error", "model.go: the generator fails: %v", err)
+		}
+		out["model.go"] = src
+		return out
+	}
+	first := render()
+	again := render()
+	for name, src := range first {
+		if !bytes.Equal(src, again[name]) {
+			kase.Table, kase.Source = name, string(again[name])
+			fail("generate.nondeterministic", "%s differs between the first and the second rendering of a schema with ~400 distinct column names", name)
+		}
+	}
+	fset := token.NewFileSet()
+	var files []*ast.File
+	var fnames []string
+	for n := range first {
+		fnames = append(fnames, n)
+	}
+	sort.Strings(fnames)
+	for _, name := range fnames {
+		f, err := parser.ParseFile(fset, name, first[name], parser.ParseComments)
+		if err != nil {
+			kase.Source = string(first[name])
+			fail("generate.syntax", "%s does not parse: %v", name, err)
+		}
+		files = append(files, f)
+	}
+	conf := types.Config{Importer: imp}
+	tpkg, err := conf.Check(pkg, fset, files, nil)
+	if err != nil {
+		for n, src := range first {
+			if strings.Contains(err.Error(), n) {
+				kase.Source = string(src)
+			}
+		}
+		fail("generate.typecheck", "the generated package does not type-check: %v", err)
+	}
+	for name, table := range schema.Tables {
+		obj := tpkg.Scope().Lookup(modelgen.StructName(name))
+		if obj == nil {
+			fail("generate.struct-missing", "no type %s for table %s", modelgen.StructName(name), name)
+		}
+		st, ok := obj.Type().Underlying().(*types.Struct)
+		if !ok {
+			fail("generate.struct-missing", "%s is not a struct", modelgen.StructName(name))
+		}
+		tags := map[string]int{}
+		for i := 0; i < st.NumFields(); i++ {
+			tags[reflect.StructTag(st.Tag(i)).Get("ovsdb")]++
+		}
+		for cn := range table.Columns {
+			if tags[cn] != 1 {
+				kase.Table = name
+				fail("generate.field-missing", "table %s: %d fields tagged %q, want 1", name, tags[cn], cn)
+			}
+		}
+	}
+	kit.Record("C20", "many-names|24x16", true, func() interface{} { return map[string]interface{}{"tables": 24, "columnsPerTable": 16} }, "many-distinct-names")
+}
